@@ -146,6 +146,8 @@ class AesMachine(lenrun.Machine):
     def vstep(self, i):
         op = i.op
         if not any(o[0] == "r" and VEC.match(o[1] or "") for o in i.ops):
+            if self.gpr_tweak(i):
+                return
             # scalar stores into a tracked granule spoil it
             if i.mem >= 0 and i.writes_mem_operand() and i.mem + 5 <= len(i.ops):
                 a = self.addr(i)
@@ -305,13 +307,81 @@ class AesMachine(lenrun.Machine):
         allv = [x for L in srcl for x in L] + (mem_l or [])
         self.setv(d, [other_vals(allv or [PLAIN])] * nl, vex=vex)
 
+    # ---- XTS tweak sequence: the tweak is multiplied by alpha in a pair of general registers (shl / adc / cmovc / xor)
+    # and written back to the frame in two halves; the exponent of alpha travels with it
+    @staticmethod
+    def tw_exp(v):
+        es = {x[1] for x in v[2] if isinstance(x, tuple) and x[0] == "TW"}
+        if "IV" in v[2]:
+            es.add(0)
+        return next(iter(es)) if len(es) == 1 else None
+
+    def gpr_tweak(self, i):
+        op = i.op
+        gt = self.__dict__.setdefault("gt", {})
+        half = self.__dict__.setdefault("tw_half", {})
+        if i.mem >= 0 and i.mem + 5 <= len(i.ops):
+            a = self.addr(i)
+            onstack = a is not None and a[0] == "p" and (a[1] == "sp" or a[1].startswith("fr"))
+            al = 0
+            if onstack:
+                ks = list(self.vmem.get(a[1], {}))
+                al = (ks[0] % 16) if ks else 0          # 16-byte granules sit where the vector stores put them
+            if op == "MOV64rm" and onstack and (a[2] - al) % 8 == 0:
+                v = self.vmem.get(a[1], {}).get(a[2] - (a[2] - al) % 16)
+                e = self.tw_exp(v) if v is not None else None
+                d = PARENT.get(i.reg(0))
+                if e is not None:
+                    gt[d] = e
+                else:
+                    gt.pop(d, None)
+                return False
+            if op == "MOV64mr" and onstack and (a[2] - al) % 8 == 0:
+                src = i.ops[i.mem + 5][1] if i.mem + 5 < len(i.ops) else None
+                e = gt.get(PARENT.get(src))
+                if e is None:
+                    half.pop((a[1], a[2]), None)
+                    return False
+                half[(a[1], a[2])] = e
+                base = a[2] - (a[2] - al) % 16
+                if half.get((a[1], base)) == e and half.get((a[1], base + 8)) == e:
+                    self.vmem.setdefault(a[1], {})[base] = ("dd", E, frozenset([("TW", e)]))
+                else:
+                    self.vmem.setdefault(a[1], {})[base] = (BOT, E, E)
+                return True
+        defs = [PARENT.get(d) for d in list(i.explicit_defs()) + list(i.idefs) if d in PARENT]
+        new = {}
+        if i.mem < 0:
+            if op in ("SHL64r1",) or (op == "SHL64ri" and i.imm(2) == 1) or (op == "ADD64rr" and i.reg(1) == i.reg(2)):
+                r = PARENT.get(i.reg(0))
+                if r in gt:
+                    new[r] = gt[r] + 1
+            elif op == "ADC64rr" and i.reg(1) == i.reg(2):
+                r = PARENT.get(i.reg(0))
+                if r in gt:
+                    new[r] = gt[r] + 1
+            elif op == "XOR64rr" and i.reg(1) != i.reg(2):
+                r = PARENT.get(i.reg(0))
+                if r in gt and PARENT.get(i.reg(2)) not in gt:
+                    new[r] = gt[r]
+            elif op == "MOV64rr":
+                if PARENT.get(i.reg(1)) in gt:
+                    new[PARENT.get(i.reg(0))] = gt[PARENT.get(i.reg(1))]
+        for d in defs:
+            if d in gt and d not in new:
+                del gt[d]
+        gt.update(new)
+        return False
+
     def snap(self):
-        return (lenrun.Machine.snap(self), {k: list(v) for k, v in self.vregs.items()}, {t: dict(e) for t, e in self.vmem.items()})
+        return (lenrun.Machine.snap(self), {k: list(v) for k, v in self.vregs.items()}, {t: dict(e) for t, e in self.vmem.items()}, dict(self.__dict__.get("gt", {})), dict(self.__dict__.get("tw_half", {})))
 
     def restore(self, t):
         lenrun.Machine.restore(self, t[0])
         self.vregs = {k: list(v) for k, v in t[1].items()}
         self.vmem = {k: dict(e) for k, e in t[2].items()}
+        self.gt = dict(t[3])
+        self.tw_half = dict(t[4])
 
     def on_ret(self, i):
         self.finals += 1
@@ -383,3 +453,35 @@ def judge(m, chain=None):
                         return (i, "`%s`: output block %d does not depend on %s (CBC chains every block with the previous ciphertext block, the first with the IV)" % (
                             i.text.strip(), blk, "the IV" if w == "IV" else "input block %d" % w[1])), nj, nu
     return None, nj, nu
+
+
+def judge_tweaks(m, L, decrypt):
+    """XTS tweak sequence on the stores through out: block j carries tweak T*alpha^j; with r = L mod 16 != 0 the last
+    full position (m-1) carries alpha^m when encrypting / alpha^(m-1) when decrypting, and the r tail bytes (the
+    store that starts at 16(m-1)+r) the other one.  Presence only.  Returns (ins, message) or None, judged count."""
+    nblk, r = L // 16, L % 16
+    n = 0
+    for (i, off, size, lanes, masked) in m.out_stores:
+        if size != 16 or masked:
+            continue
+        v = lanes[0]
+        have = {x[1] for x in v[2] if isinstance(x, tuple) and x[0] == "TW"} | ({0} if "IV" in v[2] else set())
+        if off % 16 == 0:
+            j = off // 16
+            if r and j == nblk - 1:
+                want = nblk - 1 if decrypt else nblk
+            elif j < nblk:
+                want = j
+            else:
+                continue
+            what = "output block %d" % j
+        else:
+            if not r or off != 16 * (nblk - 1) + r:
+                continue
+            want = nblk if decrypt else nblk - 1
+            what = "the %d trailing byte(s)" % r
+        n += 1
+        if want not in have:
+            return (i, "`%s`: %s must be processed with the tweak multiplied by alpha^%d; the value stored depends on alpha^%s" % (
+                i.text.strip(), what, want, "{" + ", ".join(map(str, sorted(have))) + "}" if have else "no tweak at all")), n
+    return None, n
